@@ -63,7 +63,7 @@ type item struct {
 	open   bool // first half of `var a, b = x, y`, waiting for the second
 }
 
-var indirectKinds = []string{"func", "chain", "method", "ptrmethod", "methodval", "methodexpr", "funcref", "cycle", "cycle", "cycle", "recvcall", "mapkeyfn"}
+var indirectKinds = []string{"func", "chain", "method", "ptrmethod", "methodval", "methodexpr", "funcref", "cycle", "cycle", "cycle", "cycle", "recvcall", "mapkeyfn"}
 
 // receiverKinds: the variable is read by the receiver operand of a method call
 // or method value written in the initialiser itself (a reference as visible as
